@@ -261,7 +261,8 @@ impl Curve3 {
 fn resample_by_max_spacing(curve: &Curve3, max_spacing: f64) -> Curve3 {
     // Find the number of points it will take to ensure that the spacing is less than the max
     // spacing
-    let n = (curve.length() / max_spacing).ceil() as usize;
+    // n points make n - 1 intervals, and there are always at least the two end points
+    let n = ((curve.length() / max_spacing).ceil() as usize + 1).max(2);
     resample_by_count(curve, n)
 }
 
